@@ -25,7 +25,7 @@ CHECKS = {
    note="Order of events across requests strict, inside one multi-key request as a multiset; delivery over a socket (forwarding tasks) is covered under C13; the socket-level settle-point enumeration of the design is not built.",
    technique="explicit-state model checking of the real core (BFS over request histories, snapshot de-duplication, reference-model oracle)"),
  "C04": dict(cat="exploration", engine="wbmc-core/c04", ref="DESIGN.md §3 C04",
-   text="Exhaustive enumeration of every pattern over {a,b,'',?,#} and every key over {a,b,''} up to 4 (quick) / 5 (thorough) segments: for each pair pget, live notification and pdelete on the real core must agree with each other and with the documented relation; patterns with a non-final # must be rejected by all three entry points also on an empty store.",
+   text="Exhaustive enumeration of every pattern over {a,ab,'',?,#} and every key over {a,ab,''} (one literal a string prefix of the other) up to 4 (quick) / 5 (thorough) segments: for each pair (on a store holding only that key) and for each pattern on a store holding every key at once (values at inner nodes, siblings, empty segments), pget, live notification and pdelete on the real core must agree with each other and with the documented relation; patterns with a non-final # must be rejected by all three entry points also on an empty store.",
    note="One key per store; segments other than a/b/'' behave like a/b (the matchers compare segments for equality only).",
    technique="exhaustive enumeration of a bounded input space on the real core (all pattern/key pairs up to depth 4-5)"),
  "C06": dict(cat="model_checking", engine="wbmc-core/graph", ref="DESIGN.md §3 C06",
@@ -49,7 +49,7 @@ CHECKS = {
    note="'All byte lines' beyond the alphabet would be fuzzing (another family); the alphabet and depth are stated in the evidence.",
    technique="stateless bounded-exhaustive exploration of the real protocol handler + core task (all line sequences up to depth 2-3, witness-script oracle)"),
  "C09": dict(cat="exploration", engine="wbmc-core/persist", ref="DESIGN.md §3 C09",
-   text="Exhaustive enumeration of a bounded space of store contents (every single entry over 6 key shapes x 10 JSON values incl. values that look like the file format's tags x plain/CAS at versions 1, 2, 2^53+1, u64::MAX; pairs and triples over a reduced value set) x 4 registration sets x the three on-disk layouts v3/v2/v1 x both toggle states: built through the real API, flushed with the real synchronous(), re-laid-out, loaded through the real load() fall-back chain, and compared key by key (value, kind, version, nothing under $SYS, registrations applied).",
+   text="Exhaustive enumeration of a bounded space of store contents (every single entry over 9 key shapes (incl. empty and unicode segments, a first segment that only starts with $SYS, $SYS as a later segment) x 10 JSON values incl. values that look like the file format's tags x plain/CAS at versions 1, 2, 2^53+1, u64::MAX; pairs and triples over a reduced value set) x 4 registration sets x the three on-disk layouts v3/v2/v1 x both toggle states: built through the real API, flushed with the real synchronous(), re-laid-out, loaded through the real load() fall-back chain, and compared key by key (value, kind, version, nothing under $SYS, registrations applied).",
    note="The reference takes the content at the flush from the instance itself and applies grave goods / last wills with the documented relation; v1 has no registration file.",
    technique="exhaustive enumeration of a bounded input space through the real flush and load code (round trip oracle)"),
  "C10": dict(cat="fault_enumeration", engine="wbmc-core/persist + crashfs", ref="DESIGN.md §3 C10",
@@ -69,11 +69,11 @@ CHECKS = {
    note="The exhaustive part is component level (no sockets); the end-to-end scenario runs in real time on a multi-thread runtime, establishes quiescence by a marker write that travels the same ordered channel, and covers only short histories; the follower is a deterministic function of (initial sync, command sequence), so delivery timing is not a separate choice; known deviations are attributed by the keys a recorded cause (session end with registrations, import of CAS entries, pre-join registrations) can affect.",
    technique="explicit-state model checking over the real leader/follower step functions (one pending event per transition, snapshot de-duplication, differential oracle leader vs follower)"),
  "C12": dict(cat="model_checking", engine="wbmc-core/graph", ref="DESIGN.md §3 C12",
-   text="Explicit-state search over leader histories x follower join point x persistence ticks x leader-loss point: the follower node's core comes from the real persistence::restore under the configuration the orchestrator's command line produces (Config::new(Some(Args{--follower..})) with only the data directory in the environment), it flushes where run_in_follower_mode flushes, is stopped by the shutdown sequence and restored in --leader mode from the same directory; the promoted core must hold every user key the follower had received, minus the grave goods and plus the last wills of all clients connected to the old leader (including those registered before the join).",
+   text="Explicit-state search over leader histories x follower join point x persistence ticks x leader-loss point: the follower node's core comes from the real persistence::restore under the configuration the orchestrator's command line produces (Config::new(Some(Args{--follower..})) with only the data directory in the environment), it flushes where run_in_follower_mode flushes, is stopped by the shutdown sequence - or lost without it, in which case what its latest flush wrote counts - and restored in --leader mode from the same directory; the promoted core must hold every user key the follower had received, minus the grave goods and plus the last wills of all clients connected to the old leader (including those registered before the join).",
    note="Component level; JSON persistence; election and process management are C19's subject.",
    technique="explicit-state model checking over the real leader/follower/restore code (fail-over at every quiescent point of every bounded history)"),
  "C15": dict(cat="model_checking", engine="wbmc-core/graph", ref="DESIGN.md §3 C15",
-   text="Part 1: exhaustive over all (grant, requested pattern) pairs over {a,b,?,#} up to depth 4/5: where auth::pattern_matches claims containment, every key the real server returns for the request must be covered by the grant under the documented relation. Part 2: explicit-state search over request sequences (all request kinds x keys/patterns) of a session on a server that requires authorization, for 10 tokens (none, five grant sets, expired, forged, unsupported algorithm, garbage; real HS256 tokens): nothing is served before a valid token; a served request only returns/changes/removes keys (answer, store difference, unrestricted internal observer) covered by a grant of its privilege; a refused request has no effect.",
+   text="Part 1: exhaustive over all (grant, requested pattern) pairs over {a,ab,?,#} (one literal a string prefix of the other) up to depth 4/5: where auth::pattern_matches claims containment, every key the real server returns for the request must be covered by the grant under the documented relation. Part 2: explicit-state search over request sequences (all request kinds x keys/patterns) of a session on a server that requires authorization, for 10 tokens (none, five grant sets, expired, forged, unsupported algorithm, garbage; real HS256 tokens): nothing is served before a valid token; a served request only returns/changes/removes keys (answer, store difference, unrestricted internal observer) covered by a grant of its privilege; a refused request has no effect.",
    note="Only soundness (served => covered) is asserted; token expiry uses the wall clock with expiry times decades away.",
    technique="exhaustive enumeration of pattern pairs + explicit-state model checking of sessions on the real protocol handler with authorization on"),
  "C18": dict(cat="fault_enumeration", engine="wbmc-core/tree", ref="DESIGN.md §3 C18",
